@@ -160,6 +160,15 @@ fn c07_call_long_p23() {
     kani::cover!(true, "long call");
 }
 
+/// a call of 100 bytes from key position 23: position and length concrete (cheap and robust whatever loop
+/// structure the implementation uses), key, chaining byte and data symbolic
+#[kani::proof]
+#[kani::unwind(102)]
+fn c07_call_mid() {
+    call_is_steps::<100>(23, 100, 2);
+    kani::cover!(true, "mid call");
+}
+
 /// C07: splitting a call anywhere (including empty pieces) changes nothing; paired halves round-trip
 /// under different chunking on the two sides.
 const SPL: usize = 8;
